@@ -29,6 +29,8 @@ pub assume_specification<T>[ <[T]>::as_ptr ](s: &[T]) -> (r: *const T);
 
 //@include inc/deser_impls.tpl
 
+//@include inc/deser_vec.tpl
+
 // @@V-SER: obligations counted from here (the text above is the V-DESER unit, counted there)
 
 //@include inc/ser_prelude.rs
@@ -38,6 +40,8 @@ pub assume_specification<T>[ <[T]>::as_ptr ](s: &[T]) -> (r: *const T);
 //@include inc/ser_spec.tpl
 
 //@include inc/ser_impls.tpl
+
+//@include inc/ser_vec.tpl
 
 } // verus!
 fn main() {}
